@@ -139,6 +139,14 @@ def run_cases(chk, tier):
             check_array(chk, kind, st, arr[3:9], els[3:9], hist=["[3:9]"], r=r)
             check_array(chk, kind, st, arr[len(els) - 4:], els[len(els) - 4:], hist=["tail"], r=r)
         chk.sample(dict(kind=kind, family="all ring directions + degenerate rings", elements=els[:4]), cap=6)
+        # windows of an array whose missing elements lie before, inside and behind the window (what is missing in the parent
+        # before the window must not become missing - or present - in the result)
+        cw = [wrap(c) for c in combos]
+        mix = [cw[0], None, cw[3], cw[5], None, cw[6], cw[9], None, cw[10], cw[13], cw[2]]
+        marr = geo.make_array(kind, mix, "float64")
+        for (i, j) in ((1, 11), (2, 9), (3, 8), (5, 11), (4, 5), (7, 10), (0, 11)):
+            check_array(chk, kind, "float64", marr[i:j], mix[i:j], hist=[f"[{i}:{j}] of an array with missing elements"], r=r)
+        chk.count("windows-with-missing")
         # rings of area one half (the smallest a lattice triangle can have), either direction, as shell and as hole
         t_ccw, t_cw = [0, 0, 1, 0, 0, 1, 0, 0], [0, 0, 0, 1, 1, 0, 0, 0]
         h_ccw, h_cw = [2, 2, 3, 2, 2, 3, 2, 2], [2, 2, 2, 3, 3, 2, 2, 2]
